@@ -15,13 +15,13 @@ use std::sync::atomic::{AtomicUsize, Ordering};
 use std::sync::Arc;
 
 pub static ENTRY: AtomicUsize = AtomicUsize::new(0);
-pub const ENTRIES: [&str; 48] = [
+pub const ENTRIES: [&str; 51] = [
     "idle", "load", "version", "num_pages", "get_page", "pages_iter", "media_box", "crop_box", "page_resources", "contents_operations",
     "annotations_load", "font_load", "font_widths", "widths_get", "font_to_unicode", "font_embedded_data", "font_encoding", "xobject_get",
     "raw_image_data", "image_data", "form_operations", "form_resources", "pattern_get", "gs_font_get", "names_walk", "page_labels_walk",
     "outline_get", "forms_field_get", "metadata_data", "resolve_n", "get_dictionary", "get_stream_data", "get_pagesnode", "get_font",
     "get_xobject", "get_objectstream", "function_from_primitive", "function_apply", "colorspace_from_primitive", "scan", "dests", "struct_tree",
-    "appearance", "embedded_files_walk", "cid_to_gid", "catalog", "trailer", "other",
+    "appearance", "embedded_files_walk", "cid_to_gid", "catalog", "trailer", "import_clone_page", "import_build", "import_reload", "other",
 ];
 pub fn entry_id(name: &str) -> usize { ENTRIES.iter().position(|e| *e == name).unwrap_or(ENTRIES.len() - 1) }
 
